@@ -693,7 +693,57 @@ pub fn generate(seed: u64, prop: &str) -> Scenario {
             ops.insert(at, Op::Restart);
         }
     }
-    if prop == "C20" || (prop == "C02" && r.chance(1, 3)) {
+    if prop == "C20" && Rng::new(seed ^ 0xC20_5407).chance(1, 4) {
+        // planted shape: a long slow chain A (its second epoch gets half the difficulty) and a fast
+        // branch B that leaves A inside the genesis epoch (its second epoch gets twice the
+        // difficulty): B outweighs A while still being SHORTER, the fork point lies inside A's
+        // pruned proposal window, and the window of B's tip re-opens blocks that A's tip had left
+        let mut r2 = Rng::new(seed ^ 0xC20_5408);
+        cfg.genesis_epoch_len = *r2.pick(&[6u64, 8, 10]);
+        cfg.permanent_difficulty = false;
+        cfg.epoch_duration_target = cfg.genesis_epoch_len * 8;
+        cfg.w_close = r2.range(1, 3);
+        cfg.w_far = r2.range(8, 11);
+        let l = cfg.genesis_epoch_len as usize;
+        let t = l + r2.urange(4, 7);
+        let f = l - r2.urange(1, 3);
+        cfg.w_far = cfg.w_far.max((t - f) as u64 + 1).min(11);
+        tree.clear();
+        // A is fast up to the fork point and very slow from there to the end of the genesis epoch
+        let slow = cfg.epoch_duration_target * 1000 * 2;
+        for i in 0..t {
+            let mut rec = gen_recipe(&mut r2, i as u64 + 1, true);
+            rec.ts_delta = if i < f { 1 + r2.range(0, 3) } else { slow + r2.range(0, 999) };
+            rec.uncles = 0;
+            rec.new_txs = rec.new_txs.max(1);
+            rec.propose = rec.propose.max(2);
+            tree.push(TreeOp { parent: i, recipe: rec });
+        }
+        let nb = t - f;
+        for j in 0..nb {
+            let mut rec = gen_recipe(&mut r2, 500 + j as u64, true);
+            rec.ts_delta = 1 + r2.range(0, 3);
+            rec.uncles = 0;
+            rec.propose = rec.propose.max(1);
+            tree.push(TreeOp { parent: if j == 0 { f } else { t + j }, recipe: rec });
+        }
+        ops.clear();
+        for b in 1..=t {
+            ops.push(Op::Deliver { b });
+            if r2.chance(1, 3) {
+                ops.push(Op::Drain);
+            }
+        }
+        ops.push(Op::Drain);
+        for j in 0..nb {
+            ops.push(Op::Deliver { b: t + 1 + j });
+            ops.push(Op::Drain);
+        }
+        if r2.chance(1, 2) {
+            let at = r2.idx(ops.len() + 1);
+            ops.insert(at, Op::Restart);
+        }
+    } else if prop == "C20" || (prop == "C02" && r.chance(1, 3)) {
         // clean restarts at arbitrary points
         let k = r.urange(1, 3);
         for _ in 0..k {
